@@ -29,10 +29,11 @@ Theorem C03_enc_read_authentic :
 Proof. exact enc_read_authentic. Qed.
 
 (* seeks (all whences, any argument) never crash, keep the state reachable, and a successful
-   seek lands at the position it returns *)
+   seek lands at the position it returns.  CHUNK < 2^31 (production 2^17): the position (u32 chunk number * CHUNK +
+   cache position) stays below 2^63, so `i64::try_from(current).unwrap()` in the Current arm cannot panic *)
 Theorem C03_enc_seek_position :
   forall CHUNK TAG, 0 < CHUNK -> forall ks tagc S w R, Seekable S w R ->
-  forall i0 pin s wh, R i0 pin -> reach CHUNK TAG ks tagc S i0 s ->
+  forall i0 pin s wh, CHUNK < 2 ^ 31 -> R i0 pin -> reach CHUNK TAG ks tagc S i0 s ->
   exists s' r, eseek CHUNK TAG ks tagc S s wh = (s', r) /\ reach CHUNK TAG ks tagc S i0 s' /\
     (forall c, r <> Crash c) /\ match r with Ok q => epos CHUNK S s' = q | _ => True end.
 Proof. exact enc_seek_position. Qed.
@@ -57,7 +58,8 @@ Proof. exact enc_read_original_or_forgery. Qed.
 Theorem C03_unaltered_opens :
   forall CHUNK TAG, 0 < CHUNK -> 0 < TAG -> forall ks tagc, (forall i c, len (tagc i c) = TAG) ->
   forall S plain Rin, Refines S (enc_format CHUNK ks tagc plain) Rin ->
-  nfull CHUNK (len plain) + 2 < 2 ^ 32 -> forall i0 pin, Rin i0 pin ->
+  nfull CHUNK (len plain) + 2 < 2 ^ 32 ->
+  (len plain / CHUNK + 1) * CTS CHUNK TAG <= 2 ^ 64 - 1 -> len plain < 2 ^ 63 -> forall i0 pin, Rin i0 pin ->
   exists s, enc_open CHUNK TAG ks tagc S i0 = (s, Ok 0) /\ Renc CHUNK TAG ks tagc S plain Rin s 0.
 Proof. exact enc_open_spec. Qed.
 
